@@ -1420,3 +1420,4 @@ Proof.
     assert (He' : e = 0 \/ e = 1 \/ e = 3 \/ e = 4 \/ e = 5 \/ e = 6) by lia.
     destruct He' as [?|[?|[?|[?|[?|?]]]]]; subst e; reflexivity.
 Qed.
+
